@@ -15,7 +15,7 @@ import mapsrc
 import walk_gen
 
 SPECIAL = ['<', '>', '&', '"', "'", ' ', 'a<b', 'x&y', '&amp;', '<b>', "it's", '"q"', '  ', ' lead', 'trail ', 'A B',
-           '<&>', "'\"", '&lt;', 'a  b', '<script>x</script>', '&&', '>>', "''", ']]>', '<!--', 'A&B<C>D\'E"F']
+           '<&>', "'\"", '&lt;', 'R&D;LAB', 'A&#65;B', '&#x41;', 'AT&amp;T', '&quot;', '&x;y', 'a  b', '<script>x</script>', '&&', '>>', "''", ']]>', '<!--', 'A&B<C>D\'E"F']
 
 ODD_DELIMS = [('<', '&', '>'), ('>', '<', '&'), ('|', '^', '>'), ('^', '|', '~'), ('&', '*', ':'), ('~', '<', ':'),
               ('~', '*', '<'), ('~', '*', '&'), ("'", '+', ':'), ('~', '*', '"'), ('~', "'", ':'), ('~', '*', "'"),
